@@ -356,11 +356,21 @@ ares_status_t ares_dns_name_write(ares_buf_t *buf, ares_llist_t **list,
   size_t                   orig_name_len;
   size_t                   pos    = ares_buf_len(buf);
   ares_array_t            *labels = NULL;
-  char                     name_copy[512];
+  /* NOTE: due to possible escaping the presentation form of a name is longer
+   *       than its 255 octet wire form.  With every octet written as \DDD a
+   *       maximum length name (250 octets in 4 labels) takes 1003 characters
+   *       plus a trailing dot. */
+  char                     name_copy[1024];
   ares_status_t            status;
 
   if (buf == NULL || name == NULL) {
     return ARES_EFORMERR; /* LCOV_EXCL_LINE: DefensiveCoding */
+  }
+
+  /* Never work on a silently truncated copy, that would write a different
+   * name than the one asked for */
+  if (ares_strlen(name) >= sizeof(name_copy)) {
+    return ARES_EBADNAME;
   }
 
   labels = ares_array_create(sizeof(ares_buf_t *), ares_dns_labels_free_cb);
